@@ -58,13 +58,26 @@ def descSummary (d : VmdkDesc.Desc) : String :=
   let kv := fun (l : List (List Char × List Char)) => ";".intercalate (l.map (fun p => s!"{hx p.1}={hx p.2}"))
   s!"ok sectors={d.sectors} extents=[{"|".intercalate ex}] attr=[{kv d.attr}] ddb=[{kv d.ddb}]"
 
+def parseNamesL (st : St) (toks : List String) : Except Err (List (String × File)) :=
+  toks.mapM fun t => match t.splitOn "=" with
+    | [h, id] => match hexToString h, st.file? id with
+      | some n, some f => .ok (n, f)
+      | _, _ => .error .other
+    | _ => .error .other
+
+
+def parseNames (st : St) (toks : List String) := parseNamesL st toks
+
 /-- `VMDK(descriptor)` given the directory listing `names` (file name → file) -/
-def vmdkOpenDescriptor (desc : File) (names : List (String × File)) : Except Err (Vmdk.Vmdk × VmdkDesc.Desc) := do
+def vmdkOpenDescriptorP (desc : File) (names : List (String × File)) (parent : Option Vmdk.SectorReader) :
+    Except Err (Vmdk.Vmdk × VmdkDesc.Desc) := do
   let some text := fileText desc | throw .other
   let d := VmdkDesc.parse text.toList
-  -- self.descriptor.attr["parentCID"]: KeyError when absent; a parent (≠ ffffffff) is C07's business
+  -- self.descriptor.attr["parentCID"]: KeyError when absent
   let some pcid := VmdkDesc.dictGet d.attr "parentCID".toList | throw .index
-  if pcid ≠ "ffffffff".toList then throw .other
+  -- a parent is required iff parentCID != ffffffff (open_parent raises when it cannot be opened)
+  let par ← (if pcid ≠ "ffffffff".toList then
+      (match parent with | some p => .ok (some p) | none => .error .other) else .ok none)
   let mut mk : List (Nat → Vmdk.Disk) := []
   for e in d.extents do
     match VmdkDesc.wire e.type with
@@ -75,17 +88,28 @@ def vmdkOpenDescriptor (desc : File) (names : List (String × File)) : Except Er
       let some (_, fh) := names.find? (fun p => p.1.toList = fname) | throw .other
       match w with
       | .sparse =>
-        let sp ← Vmdk.openSparse fh none 0 Inflate.zlibInflate
+        let sp ← Vmdk.openSparse fh par 0 Inflate.zlibInflate
         mk := mk ++ [fun so => Vmdk.sparseDisk { sp with sectorOffset := so }]
       | _ => mk := mk ++ [fun so => Vmdk.rawDisk fh (some (e.sectors * 512)) so]
   pure (Vmdk.assemble mk, d)
 
-def parseNames (st : St) (toks : List String) : Except Err (List (String × File)) :=
-  toks.mapM fun t => match t.splitOn "=" with
-    | [h, id] => match hexToString h, st.file? id with
-      | some n, some f => .ok (n, f)
-      | _, _ => .error .other
-    | _ => .error .other
+def vmdkOpenDescriptor (desc : File) (names : List (String × File)) : Except Err (Vmdk.Vmdk × VmdkDesc.Desc) :=
+  vmdkOpenDescriptorP desc names none
+
+/-- layers base first, each `D:<descid>:<hexname=id>+<hexname=id>…` -/
+def vmdkDeltaChain (st : St) (layers : List String) : Except Err (Option Vmdk.Vmdk) := do
+  let mut parent : Option Vmdk.SectorReader := none
+  let mut top : Option Vmdk.Vmdk := none
+  for l in layers do
+    match l.splitOn ":" with
+    | ["D", did, names] =>
+      let some df := st.file? did | throw .other
+      let ns ← parseNamesL st (names.splitOn "+")
+      let (v, _) ← vmdkOpenDescriptorP df ns parent
+      top := some v
+      parent := some v.readSectors
+    | _ => throw .other
+  pure top
 
 def vmdkDescCmd (st : St) : List String → String
   | ["desc.parse", h] =>
@@ -111,6 +135,14 @@ def vmdkDescCmd (st : St) : List String → String
       | .ok (v, _) => runStreamSec v.read (some v.readSectors) v.size a (rest.drop k)
       | .error e => s!"err {e}"
     | _, _, _ => "bad-args"
+  | "vmdk.desc.delta" :: align :: nl :: rest =>
+    match align.toNat?, nl.toNat? with
+    | some a, some k =>
+      match vmdkDeltaChain st (rest.take k) with
+      | .ok (some v) => runStreamSec v.read (some v.readSectors) v.size a (rest.drop k)
+      | .ok none => "bad-args"
+      | .error e => s!"err {e}"
+    | _, _ => "bad-args"
   | _ => "bad-cmd"
 
 end Hv.Driver
